@@ -374,9 +374,6 @@ func (propC20) Exec(p *Plan, x *Ctx) *Outcome {
 							return false
 						}
 					}
-				} else if hs[h].Length() != 0 {
-					out.Violate("value-model", "C20/length/non-array", "after op %d: handle %d of type %s has Length() %d", i, h, want.T, hs[h].Length())
-					return false
 				}
 				if hs[h].IsNull() != (want.T == "Null") {
 					out.Violate("value-model", "C20/isnull", "after op %d: handle %d IsNull() = %v for %s", i, h, hs[h].IsNull(), want)
